@@ -25,6 +25,7 @@ type SEnv struct {
 	block   *ssa.BasicBlock // current block (for local lookup), may be nil
 	depth   int
 	qfacts  *[]Term
+	qstack  []*qlevel
 	assumeMode bool // the formula being evaluated will be assumed, not proved
 	localsFirst bool // identifiers denote current values of locals/params (loop invariants, call-site asserts)
 }
@@ -66,22 +67,52 @@ func (e *SEnv) pkg() *types.Package {
 	return nil
 }
 
+type qlevel struct {
+	vars  []string
+	facts *[]Term
+}
+
+// addFact records a typing fact of a value read in a specification.  Facts that
+// mention no bound variable are assumed for the state; others go to the
+// innermost quantifier whose variables they mention.
+func (e *SEnv) addFact(st *State, f Term) {
+	vc := e.vc
+	if f == tTrue {
+		return
+	}
+	for i := len(e.qstack) - 1; i >= 0; i-- {
+		lv := e.qstack[i]
+		for _, v := range lv.vars {
+			if strings.Contains(f, v) {
+				if lv.facts != nil {
+					*lv.facts = append(*lv.facts, f)
+				}
+				return
+			}
+		}
+	}
+	if st.pc != tTrue && len(e.qstack) > 0 {
+		// guarded by a path condition that itself cannot mention bound variables
+	}
+	saved := vc.inQuant
+	vc.inQuant = 0
+	vc.assume(st, f)
+	vc.inQuant = saved
+}
+
 // load reads a value from the heap of st and records its typing facts: outside
 // quantifiers they are assumed (under st's path condition); inside a
 // quantifier they become an antecedent of the body.
 func (e *SEnv) load(st *State, ref, off Term, t types.Type) Val {
 	vc := e.vc
 	v := vc.loadAt(st, ref, off, t)
-	f := vc.wellTyped(st, v)
-	if f != tTrue {
-		if vc.inQuant > 0 {
-			if e.qfacts != nil {
-				*e.qfacts = append(*e.qfacts, f)
-			}
-		} else {
-			vc.assume(st, f)
+	if vc.inQuant == 0 {
+		ks := vc.p.lay.of(t).Kinds
+		for i := range v.S {
+			v.S[i] = vc.define("sl", ks[i].Sort(), v.S[i])
 		}
 	}
+	e.addFact(st, vc.wellTyped(st, v))
 	return v
 }
 
@@ -308,10 +339,16 @@ func (e *SEnv) quant(x *SQuant) Val {
 	var fa, fc []Term
 	vc.inQuant++
 	var body Term
+	var qvars []string
+	for _, v := range x.Vars {
+		qvars = append(qvars, n.vars[v.Name].S...)
+	}
+	lv := &qlevel{vars: qvars}
+	n.qstack = append(append([]*qlevel{}, e.qstack...), lv)
 	if imp, ok := x.Body.(*SBin); ok && imp.Op == "==>" && x.Forall {
-		n.qfacts = &fa
+		lv.facts = &fa
 		a := n.evalBool(imp.L)
-		n.qfacts = &fc
+		lv.facts = &fc
 		c := n.evalBool(imp.R)
 		if e.assumeMode {
 			body = tImp(tAnd(append(dedupTerms(fa), a)...), tAnd(append(dedupTerms(fc), c)...))
@@ -319,7 +356,7 @@ func (e *SEnv) quant(x *SQuant) Val {
 			body = tImp(tAnd(append(append(dedupTerms(fa), a), dedupTerms(fc)...)...), c)
 		}
 	} else {
-		n.qfacts = &fc
+		lv.facts = &fc
 		b := n.evalBool(x.Body)
 		switch {
 		case x.Forall && e.assumeMode:
@@ -636,6 +673,7 @@ func (e *SEnv) index(x *SIndex) Val {
 		for i := range v.S {
 			out.S = append(out.S, tIte(has, v.S[i], z.S[i]))
 		}
+		e.addFact(e.stOf(base), vc.wellTyped(e.stOf(base), out))
 		return out
 	case *types.Array:
 		if c, ok := x.I.(*SInt); ok {
